@@ -72,6 +72,7 @@ def catalogue(etl):
         U('selectrangeopen', lambda a: etl.selectrangeopen(a, 'k', 1, 2), lambda a: 'select %s N 0 ro %s %s %s' % (K('k'), E(1), E(2), ET(a))),
         U('selectin', lambda a: etl.selectin(a, 'k', (1, 2)), lambda a: 'select %s N 0 in %s %s' % (K('k'), E((1, 2)), ET(a))),
         U('selectusingcontext', lambda a: etl.selectusingcontext(a, lambda p, c, n: True), None),
+        U('selectusingcontext(cur)', lambda a: etl.selectusingcontext(a, lambda p, c, n: c['k'] is not None and (n is None or n['k'] != 0)), None),
         U('rowlenselect', lambda a: etl.rowlenselect(a, 2), lambda a: 'rowlen 2 0 %s' % ET(a)),
         U('biselect[0]', lambda a: etl.biselect(a, 'k', lambda v: True)[0], None),
         U('facet', lambda a: [tuple(etl.facet(a, 'k').items())], None),
@@ -208,6 +209,10 @@ def run(ctx):
         if ' ERR ' in out or out.startswith('TB0 ERR'):
             ctx.spec_fail('%s|raises|pos=%s' % (name, ''.join('H' if p else 'R' for p in pos)),
                           '%s raises on a header-only input' % name, case)
+            continue
+        if out.startswith('UNENC') and 'not a sequence' in out:
+            ctx.spec_fail('%s|not-a-row|pos=%s' % (name, ''.join('H' if p else 'R' for p in pos)),
+                          '%s on a header-only input yields something that is not a row' % name, case)
             continue
         if spec is not None:
             if spec.startswith(('PARSE', 'BADOP', 'ERR unsupported')):
